@@ -16,7 +16,7 @@
 From Coq Require Import List ZArith Bool.
 Import ListNotations.
 From PV Require Import Fort.Syntax Fort.Sem Fort.Facts Fort.Facts3 C05.Model C05.Equiv C05.HoistBound C05.Fold C05.Chunk C05.Fuse C05.Refuted
-  C05.HoistProofs C05.InductionProofs C05.SwapProofs.
+  C05.HoistProofs C05.InductionProofs C05.SwapProofs C05.FusePCProofs C05.FusePC2 C05.FusePC3.
 Open Scope Z_scope.
 
 (* ---- HoistLoopBoundExprTrans: full (the three created symbols are distinct and not read in p) ---- *)
@@ -81,6 +81,23 @@ Example C05_fuse_nonvacuous :
            SAssign 11%nat [EVar 0%nat] (EBin Mul (EIdx 12%nat [EVar 0%nat]) (ELit 2))]].
 Proof. exact fuse_nonvacuous. Qed.
 Print Assumptions C05_fuse_nonvacuous.
+
+(* Producer/consumer fusion (a(i) = ..; .. = a(i)): literal bounds, plain bodies, first body not writing x.
+   The premise pc_commute is SEMANTIC (acceptable here, stated in full in coq/C05/FusePC2.v): for every fuel, iteration v
+   of the second loop commutes, up to x, with every iteration v' <> v of the first loop.  It is discharged for a concrete
+   program in the Example below; a computable syntactic check implying it is not proved. *)
+Theorem C05_fuse_producer_consumer_partial : forall x l h t b1 b2,
+  plain b1 = true -> plain b2 = true -> ~ In x (wnames b1) -> pc_commute x b1 b2 ->
+  sim [x] [SDo x (ELit l) (ELit h) (ELit t) b1; SDo x (ELit l) (ELit h) (ELit t) b2]
+          [SDo x (ELit l) (ELit h) (ELit t) (b1 ++ b2)].
+Proof. exact fuse_pc_local. Qed.
+Print Assumptions C05_fuse_producer_consumer_partial.
+
+(* do i { a(i) = b(i) + 1 } ; do i { c(i) = a(i) * 2 } *)
+Example C05_fuse_pc_nonvacuous :
+  plain pc_b1 = true /\ plain pc_b2 = true /\ ~ In 0%nat (wnames pc_b1) /\ pc_commute 0%nat pc_b1 pc_b2.
+Proof. exact fuse_pc_nonvacuous. Qed.
+Print Assumptions C05_fuse_pc_nonvacuous.
 
 Theorem C05_fuse_refuted : exists p path p',
   fuse_apply expr_eqb [10%nat; 11%nat; 12%nat; 13%nat] false path p = Some p' /\ ~ sim [0%nat] p p'.
